@@ -140,6 +140,18 @@ def build(case):
         kw = {}
         if case.get("accel") == "dual":
             kw["gamma_dual"] = 1
+        zs = case.get("zero_steps")
+        if zs:
+            # array steps with exact zeros: frozen primal coordinates / unused measurements (tau*sigma*||A||^2 <= 1 holds)
+            rz = np.random.default_rng(seed + 11)
+            if zs == "tau":
+                tau = np.full(n, float(tau))
+                tau[rz.random(n) < 0.5] = 0.0
+                tau[rz.integers(0, n)] = 0.0
+            else:
+                sigma = np.full(m, float(sigma))
+                sigma[rz.random(m) < 0.5] = 0.0
+                sigma[rz.integers(0, m)] = 0.0
         alg = sp.alg.PrimalDualHybridGradient(proxfc, proxg, lambda v: Am @ v, lambda v: Am.conj().T @ v, x, u,
                                               tau, sigma, max_iter=mi, tol=0, **kw)
         return alg, (lambda: [alg.x, alg.u, alg.x_ext]), nobreak, {}
@@ -344,7 +356,7 @@ def _flavour(case):
     if case["alg"] == "GradientMethod":
         return ":accelerated" if case.get("accelerate") else ":plain"
     if case["alg"] == "PDHG":
-        return ":f=%s,g=%s" % (case.get("f", "l2"), case.get("g", ""))
+        return ":f=%s,g=%s%s" % (case.get("f", "l2"), case.get("g", ""), ",zero-steps" if case.get("zero_steps") else "")
     return ""
 
 
@@ -370,9 +382,12 @@ def st_instance(draw, kinds=ALG_KINDS, max_iter=st.integers(0, 12)):
                  x0=draw(st.sampled_from(["zeros", "zeros", "rand"])), accel=draw(st.sampled_from([None, None, "dual"])))
         c["f"] = draw(st.sampled_from(["l2", "l2", "l1"]))
         c["nu"] = draw(st.sampled_from([0.5, 1.0, 2.0]))
+        c["zero_steps"] = draw(st.sampled_from([None, None, None, None, "tau", "sigma"]))
         if c["g"] == "box" or c["f"] == "l1":
             c["cplx"] = False
         if c["f"] == "l1":
+            c["accel"] = None
+        if c["zero_steps"]:
             c["accel"] = None
     if k == "Newton":
         c.update(x0=draw(st.sampled_from(["zeros", "rand"])), b=draw(st.sampled_from(["rand", "zero"])),
@@ -530,7 +545,9 @@ APP_KINDS = ["MaxEig", "LLS:ConjugateGradient", "LLS:GradientMethod", "LLS:Prima
 def st_app(draw):
     return {"app": draw(st.sampled_from(APP_KINDS)), "max_iter": draw(st.integers(0, 8)), "seed": draw(st.integers(0, 10 ** 6)),
             "n": draw(st.integers(2, 4)), "m": draw(st.integers(2, 5)), "prox": draw(st.sampled_from([None, "l1"])),
-            "lamda": draw(st.sampled_from([0, 0.5]))}
+            "lamda": draw(st.sampled_from([0, 0.5])),
+            # the caller's initial x for LinearLeastSquares: not given, C-contiguous, or a view of a larger buffer
+            "x": draw(st.sampled_from([None, None, "c", "strided", "column"]))}
 
 
 def check_app(case):
@@ -543,6 +560,7 @@ def check_app(case):
     Am = _mat(seed, m, n, True)
     Aop = sp.linop.MatMul([n, 1], Am)
     y = _vec(seed, m, True).reshape(m, 1).astype(np.complex128)
+    caller_x = None
     try:
         if k == "MaxEig":
             app = sp.app.MaxEig(Aop.N, dtype=np.complex128, max_iter=mi, show_pbar=False)
@@ -553,8 +571,16 @@ def check_app(case):
             if solver != "default":
                 kw["solver"] = solver
             proxg = sp.prox.L1Reg([n, 1], 0.5) if case["prox"] == "l1" and solver not in ("ConjugateGradient", "default") else None
-            app = sp.app.LinearLeastSquares(Aop, y, proxg=proxg, lamda=case["lamda"], max_iter=mi, show_pbar=False, **kw)
+            xin = None
+            if case.get("x") == "c":
+                xin = np.zeros((n, 1), np.complex128)
+            elif case.get("x") == "strided":
+                xin = np.zeros((2 * n, 1), np.complex128)[::2]
+            elif case.get("x") == "column":
+                xin = np.zeros((n, 3), np.complex128)[:, 1:2]
+            app = sp.app.LinearLeastSquares(Aop, y, x=xin, proxg=proxg, lamda=case["lamda"], max_iter=mi, show_pbar=False, **kw)
             held = lambda: app.alg.x
+            caller_x = xin
         elif k == "L2Constrained":
             app = sp.app.L2ConstrainedMinimization(Aop, y, sp.prox.L1Reg([n, 1], 1.0), 0.5, max_iter=mi, show_pbar=False)
             held = lambda: app.alg.x
@@ -609,6 +635,11 @@ def check_app(case):
         if isinstance(h, np.ndarray):
             r.check(out is h or (np.shape(out) == np.shape(h) and np.array_equal(out, h, equal_nan=True)),
                     "app:returns-other-than-held:%s" % k, "run() result differs from the array the algorithm holds")
+            if caller_x is not None:
+                r.label("caller-x:" + case["x"])
+                r.check(np.shape(caller_x) == np.shape(h) and np.array_equal(caller_x, h, equal_nan=True),
+                        "app:callers-x-is-not-the-held-solution:%s" % k,
+                        "the x array passed to the app (%s layout) does not hold the solution the algorithm holds" % case["x"])
         else:
             r.check(out == h or (out != out and h != h), "app:returns-other-than-held:%s" % k, "%s vs %s" % (out, h))
     r.label(k)
